@@ -76,7 +76,7 @@ func MergeSearchResults(lim uint16, firstAttr string, cmpInt bool, sets [][]clie
 					switch firstAttr {
 					default:
 						cmpAttr = strings.Compare(sets[i][0].Attributes[0], sets[minInd][0].Attributes[0])
-					case object.FilterParentID, object.FilterFirstSplitObject:
+					case object.FilterParentID, object.FilterFirstSplitObject, object.AttributeAssociatedObject:
 						if err = curOID.DecodeString(sets[i][0].Attributes[0]); err == nil {
 							err = minOID.DecodeString(sets[minInd][0].Attributes[0])
 						}
@@ -984,7 +984,7 @@ func CalculateCursor(filt *object.SearchFilter, lastItem client.SearchResultItem
 			copy(res[off+intValLen:], lastItem.ID[:])
 			return res, nil
 		}
-	case object.FilterOwnerID, object.FilterFirstSplitObject, object.FilterParentID:
+	case object.FilterOwnerID, object.FilterFirstSplitObject, object.FilterParentID, object.AttributeAssociatedObject:
 		var err error
 		if val, err = base58.Decode(lastItemVal); err != nil {
 			return nil, fmt.Errorf("decode %q attribute value from Base58: %w", attr, err)
